@@ -14,7 +14,7 @@ from .simsched import Scheduler, SimQueue, SimEvent, SimLock, SharedFlag, fork_c
 
 class Cfg:
     def __init__(self, n_workers=2, work_cap="default", res_cap=None, factory=False, quota=None, wait_ready=False,
-                 calls=((3, 1, True),), begin_fault=(), item_fault=(), ready_mid=False):
+                 calls=((3, 1, True),), begin_fault=(), item_fault=(), ready_mid=False, none_inputs=False):
         """calls: (number of items, chunk_size, ordered)"""
         self.n_workers = n_workers
         self.work_cap = work_cap  # "default" (1.0) | None | int | float
@@ -27,6 +27,9 @@ class Cfg:
         self.item_fault = [tuple(x) for x in item_fault]
         # search-only scenario beyond the model's caller program: `until_all_ready()` is also called in the middle of a call
         self.ready_mid = ready_mid
+        # some input elements are `None` (results too): the emitted chunk order can then not be read off the results, so the
+        # final `out:` field is left out of the comparison with the model (every step is still compared)
+        self.none_inputs = none_inputs
 
     def work_cap_int(self):
         wc = 1.0 if self.work_cap == "default" else self.work_cap
@@ -46,7 +49,7 @@ class Cfg:
     def to_json(self):
         return dict(n_workers=self.n_workers, work_cap=self.work_cap, res_cap=self.res_cap, factory=self.factory,
                     quota=self.quota, wait_ready=self.wait_ready, calls=self.calls, begin_fault=self.begin_fault,
-                    item_fault=self.item_fault, ready_mid=self.ready_mid)
+                    item_fault=self.item_fault, ready_mid=self.ready_mid, none_inputs=self.none_inputs)
 
 
 class SimEnv:
@@ -262,7 +265,7 @@ class SimEnv:
                 pool.until_all_ready()
             for n, cs, ordered in self.cfg.calls:
                 base = len(self.results) * 1000
-                data = (base + i for i in range(n))  # a lazily produced input
+                data = (core.pool_input(base // 1000, i, self.cfg.none_inputs) for i in range(n))  # a lazily produced input
                 res = []
                 self.results.append(res)
                 it = pool.imap(data, cs) if ordered else pool.imap_unordered(data, cs)
@@ -284,7 +287,11 @@ class SimEnv:
         schedule = []
         try:
             self.build()
-            self.sched.spawn("C", self.consumer)
+            try:
+                self.sched.spawn("C", self.consumer)
+            except simsched.SchedulerError as e:
+                self.final_logs, self.final_finished, self.final_procs, self.final_resq = {}, {}, [], []
+                return ("stuck:" if isinstance(e, simsched.Stuck) else "scheduler:") + str(e), schedule, list(self.sched.log)
 
             def wrapped(en, sched):
                 name = chooser(en, sched)
@@ -296,6 +303,9 @@ class SimEnv:
                 status = "done"
             except simsched.Deadlock as d:
                 status = "deadlock:" + ",".join(f"{t}@{op}" for t, op in d.blocked)
+            except simsched.SchedulerError as e:
+                # not an observation about the code's behaviour: the run cannot be controlled (see simsched.Stuck)
+                status = ("stuck:" if isinstance(e, simsched.Stuck) else "scheduler:") + str(e)
             # an exception in the consumer, the feeding thread or the replace thread is a failure of the code under test
             for n, t in self.sched.threads.items():
                 if t.error is not None and not n.startswith("W"):
@@ -319,7 +329,7 @@ class SimEnv:
         """what every call should have yielded"""
         exp = []
         for k, (n, cs, ordered) in enumerate(self.cfg.calls):
-            exp.append([core.pool_f(k * 1000 + i) for i in range(n)])
+            exp.append([core.pool_f(core.pool_input(k, i, self.cfg.none_inputs)) for i in range(n)])
         return exp
 
 
